@@ -424,6 +424,10 @@ func classify(d string) string {
 
 // ReplayLockstep re-executes one history and reports whether the last operation still diverges.
 func ReplayLockstep(spec LockSpec, hist []qmodel.Op, op qmodel.Op) string {
+	if spec.ScaleCompaction {
+		queue.VerifSetCompaction(2, 1)
+		defer queue.VerifSetCompaction(1024, 4)
+	}
 	cfg := spec.Cfg
 	cfg.SweepGranularity = 10 * time.Millisecond
 	cfg.DeliveredCountsAgainstDepth = true
